@@ -66,6 +66,8 @@ def check(run):
         from . import C08 as _C08
         b8 = run.borrow("C08", only=r"NetworkFilterV0", why="engines are shipped serialized: the engine loaded from the bytes of engine(L) must still be engine(L), rule by rule")
         run.guard("C01.via.C08.2.positional", cfg, lambda: _C08.rule_positional(b8, F, cfg))
+        b74 = run.borrow("C07", why="engines are shipped serialized and loaded into running engines: the loaded engine must be engine(L, T) for the caller's tag set T, i.e. the tagged rules have to be re-indexed for T after every load")
+        run.guard("C01.via.C07.4.deserialize", cfg, lambda: _C07.rule_deserialize(b74, F, cfg))
 
 
 def rule_store(run, F, cfg):
